@@ -28,6 +28,7 @@
 #include <set>
 #include <thread>
 #include <signal.h>
+#include <sys/wait.h>
 #include <unistd.h>
 
 using namespace llbuild;
@@ -92,11 +93,21 @@ std::atomic<bool> cancelIssued{false};
 std::atomic<bool> buildActive{false};
 
 void doCancel();
+int crashFd = -1;          // >= 0 in the forked child of a `K` op: die before the crashAt-th event (or before the commit)
+U64 crashAt = 0;
 void ev(const std::string& s) {
   bool fire = false;
   {
     std::lock_guard<std::mutex> g(evMu);
     if (!tracing) return;
+    if (crashFd >= 0 && (events.size() + 1 >= crashAt || s == "DE")) {
+      // the process dies here: nothing after this point happens, the transaction is never committed
+      std::string out;
+      for (size_t i = 0; i < events.size(); i++) { if (i) out += " ; "; out += events[i]; }
+      out += " ; KILL\n";
+      (void)!write(crashFd, out.data(), out.size());
+      _exit(0);
+    }
     events.push_back(s);
     // (not from inside createExecutionQueue: the engine holds its queue mutex there, and cancelBuild()
     // takes the same non-recursive mutex; a foreign thread would simply block until it is released)
@@ -522,6 +533,41 @@ int main(int argc, char** argv) {
         sched.push_back(it);
       }
       std::cout << runBuild(key) << "\n";
+    } else if (op == 'K') {
+      // a build whose process is killed before its crashAt-th event (at the latest before the commit):
+      // run it in a forked child; the parent keeps the database as of the last commit and starts a new engine
+      auto n = nums(line, 1);
+      size_t i = 0;
+      U64 key = n.at(i++);
+      U64 at = n.at(i++);
+      i++;   // mode (always hook-driven)
+      U64 ni = n.at(i++);
+      sched.clear(); schedPos = 0;
+      for (U64 j = 0; j < ni; j++) {
+        SchedItem it; it.cancel = false; i++;
+        U64 c = n.at(i++);
+        for (U64 l = 0; l < c; l++) it.keys.push_back(n.at(i++));
+        sched.push_back(it);
+      }
+      int fds[2];
+      if (pipe(fds) != 0) { std::cout << "bad-op\n"; continue; }
+      std::cout.flush();
+      pid_t pid = fork();
+      if (pid == 0) {
+        close(fds[0]);
+        crashFd = fds[1]; crashAt = at < 2 ? 2 : at; cancelAtEvent = 0; buildMode = 0;
+        runBuild(key);
+        _exit(7);   // not reached: the child dies at the commit at the latest
+      }
+      close(fds[1]);
+      std::string got; char buf[4096]; ssize_t r;
+      while ((r = read(fds[0], buf, sizeof buf)) > 0) got.append(buf, (size_t)r);
+      close(fds[0]);
+      int status = 0; waitpid(pid, &status, 0);
+      while (!got.empty() && got.back() == '\n') got.pop_back();
+      if (got.empty()) got = "CHILD-DIED " + std::to_string(status);
+      std::cout << got << "\n";
+      newEngine(true);
     } else if (op == 'O') {
       // brand-new engine, no database, synchronous completion, no tracing
       U64 key = nums(line, 1).at(0);
